@@ -18,7 +18,7 @@ BREAKING = [
     ('channel rows not masked', T, "        sc = spike_channels[ind]", "        sc = spike_channels", ['C03.S2']),
     ('window from chunk start', T, "            waveforms[i, ...] = _extract_waveform(\n                traces, ss, channel_ids=channel_ids,", "            waveforms[i, ...] = _extract_waveform(\n                traces[i0:i1], ss, channel_ids=channel_ids,", ['C03.S2']),
     ('channel row of first spike', T, "            channel_ids = sc[i, :]", "            channel_ids = sc[0, :]", ['C03.S2']),
-    ('factor dropped', T, "        writer.append(waveforms * sample2unit)", "        writer.append(waveforms)", ['C03.P1']),
+    ('factor dropped', T, "        writer.append(waveforms.astype(dtype) * sample2unit)", "        writer.append(waveforms)", ['C03.P1']),
     ('writer not closed', T, "    writer.close()\n    assert prod(shape) == size_written", "    assert prod(shape) == size_written", ['C03.P1']),
     ('header shape swapped', T, "    shape = (n_spikes, n_samples_waveforms, n_channels_loc)", "    shape = (n_spikes, n_channels_loc, n_samples_waveforms)", ['C03.A1']),
     ('store cols swapped', T, "            out[i, :, cols0] = spike_waveforms.waveforms[sid, :, cols1]", "            out[i, :, cols1] = spike_waveforms.waveforms[sid, :, cols0]", ['C03.A1']),
@@ -37,3 +37,6 @@ EQUIVALENT = [
     ('concatenate for padding', T, "        w = np.vstack((w, np.zeros((nsw - w.shape[0], n_channels), dtype=w.dtype)))", "        w = np.concatenate((w, np.zeros((nsw - w.shape[0], n_channels), dtype=w.dtype)))"),
     ('int inline', T, "    sample = int(sample)  # NOTE: unsigned NumPy scalars would wrap around below 0\n    t0, t1 = sample - a, sample + b", "    t0, t1 = int(sample) - a, int(sample) + b"),
 ]
+BREAKING.append(('F20 reverted: unit factor applied in the sample dtype', 'phylib/io/traces.py', '        writer.append(waveforms.astype(dtype) * sample2unit)', '        writer.append(waveforms * sample2unit)', ['C03.Y4']))
+EQUIVALENT.append(('unit factor as float', 'phylib/io/traces.py', '        writer.append(waveforms.astype(dtype) * sample2unit)', '        writer.append(waveforms * float(sample2unit))'))
+BREAKING.append(('store position tables memoised on the set of common channels', 'phylib/io/traces.py', "        if len(channel_ids) > 0:\n            cols0 = _index_of(channel_common, channel_ids)\n            cols1 = _index_of(channel_common, ind)\n            assert len(cols0) == len(cols1)\n            out[i, :, cols0] = spike_waveforms.waveforms[sid, :, cols1]", "        if prev is None or not np.array_equal(channel_common, prev):\n            prev = channel_common\n            cols0 = _index_of(channel_common, channel_ids)\n            cols1 = _index_of(channel_common, ind)\n        out[i, :, cols0] = spike_waveforms.waveforms[sid, :, cols1]", ['C03.A1']))
